@@ -386,8 +386,31 @@ where
     };
     let stride = if quick { (n_slots / 250).max(1) } else { (n_slots / 1500).max(1) };
     let offset = rng.gen_range(0..stride);
-    let mut k = offset;
-    while k < n_slots {
+    // commit-phase cap entries that some query path ends in (those are inputs of fixed-challenge
+    // verification; the others are legitimately unread)
+    let mut used_cap_entries: std::collections::HashSet<(usize, usize)> = Default::default();
+    {
+        let lde_bits = inst.shape.params.lde_bits();
+        for &x in ch.fri_query_indices.iter() {
+            let mut idx = x;
+            let mut bits = lde_bits;
+            for (layer, &a) in inst.shape.params.reduction_arity_bits.iter().enumerate() {
+                let coset = idx >> a;
+                bits -= a;
+                used_cap_entries.insert((layer, coset >> (bits - cap_h.min(bits))));
+                idx = coset;
+            }
+        }
+    }
+    let cap_slot_of: Vec<(usize, usize)> = proof.commit_phase_merkle_caps.iter().enumerate().flat_map(|(l, c)| (0..c.0.len()).map(move |e| (l, e))).collect();
+    // every used cap entry is edited once, in addition to the stride sample
+    let mut ks: Vec<usize> = (0..cap_slot_of.len()).filter(|i| used_cap_entries.contains(&cap_slot_of[*i])).collect();
+    let mut kk = offset;
+    while kk < n_slots {
+        ks.push(kk);
+        kk += stride;
+    }
+    for k in ks {
         let mut q = proof.clone();
         let mut i = 0usize;
         let mut class = "";
@@ -400,16 +423,16 @@ where
             }
             i += 1;
         });
-        k += stride;
         if class == "fri.pow_witness" {
             // not an input of the fixed-challenge verification
             continue;
         }
-        if class == "fri.commit_phase_cap" && cap_h > 0 {
+        if class == "fri.commit_phase_cap" && !used_cap_entries.contains(&cap_slot_of[k]) {
             // an entry no query path ends in is legitimately unread when the challenges are fixed
+            acc.c("fixed_challenges.unused_cap_entries_skipped");
             continue;
         }
-        must_reject(&mut acc, &format!("fixed_challenges.{class}"), verdict(&inst, &openings, &ch, &caps, &q), json!({"ctx": ctx, "slot": k - stride, "mode": mode}));
+        must_reject(&mut acc, &format!("fixed_challenges.{class}"), verdict(&inst, &openings, &ch, &caps, &q), json!({"ctx": ctx, "slot": k, "mode": mode}));
     }
     // openings and initial caps under fixed challenges
     for b in 0..inst.true_openings.len() {
